@@ -100,9 +100,17 @@ def classify_args_expr(ctx, fn: FuncInfo, e: ast.expr, site: ast.AST, depth: int
             return classify_args_expr(ctx, fn, e.args[0], site, depth - 1)
         for t in r.resolve_call(e):
             if isinstance(t, FuncInfo) and t.cls is not None:
-                rets = [n.value for n in walk_no_nested(t.node) if isinstance(n, ast.Return) and n.value is not None]
+                rets = [n for n in walk_no_nested(t.node) if isinstance(n, ast.Return) and n.value is not None]
                 if rets:
-                    vs = [classify_args_expr(ctx, t, rv, rv, depth - 1) for rv in rets]
+                    vs = []
+                    for rn in rets:
+                        vd = classify_args_expr(ctx, t, rn.value, rn.value, depth - 1)
+                        if vd[0] in ("partial", "dropped"):
+                            # the helper's own arity test (`if len(args) == 1 and args[0].keyword is None: return [new]`) justifies it
+                            af = _arity_fact(ctx, t, rn, None)
+                            if af is not None:
+                                vd = ("complete", f"{vd[1]} under `{af}`")
+                        vs.append(vd)
                     return sorted(vs, key=lambda x: ["complete", "tail", "unknown", "partial", "dropped"].index(x[0]))[-1]
         return "unknown", unparse(e)[:40]
     if isinstance(e, ast.BinOp) and isinstance(e.op, ast.Add):
